@@ -15,6 +15,8 @@ pub mod peers;
 pub mod registry_tree;
 pub mod stream_ctl;
 pub mod svs;
+pub mod ws_common;
+pub mod ws_offreader;
 
 pub fn all() -> &'static [Family] {
     static ALL: std::sync::OnceLock<Vec<Family>> = std::sync::OnceLock::new();
@@ -31,6 +33,7 @@ pub fn all() -> &'static [Family] {
         v.extend(async_tcp::families());
         v.extend(async_fleet::families());
         v.extend(async_hostile::families());
+        v.extend(ws_offreader::families());
         v
     })
 }
